@@ -148,8 +148,12 @@ impl FnAbi {
     pub fn get_arg_list(&self, args: Vec<Value>, func_cmplr: &mut FunctionCompiler) -> Vec<Value> {
         let mut arg_list = vec![];
 
-        for (pass, idx) in &self.args {
-            let arg = args[*idx as usize];
+        // `args` only holds the arguments that are actually passed (zero-sized ones compile to
+        // nothing), in the order of `self.args`. the index stored in `self.args` is the index
+        // of the parameter in the source, which is something else once a zero-sized parameter
+        // comes before a real one (`(z: Empty, n: i32)`)
+        for (pos, (pass, _)) in self.args.iter().enumerate() {
+            let arg = args[pos];
             let arg_type = func_cmplr.builder.func.dfg.value_type(arg);
             match pass {
                 PassMode::Cast { tys, .. } => {
@@ -269,8 +273,9 @@ impl FnAbi {
         if let Some(PassMode::Indirect(_)) = self.ret {
             idx_off += 1
         }
-        for (arg, idx) in &self.args {
-            let param = *idx + idx_off;
+        for (pos, (arg, idx)) in self.args.iter().enumerate() {
+            // the block parameters only exist for the parameters that are actually passed
+            let param = pos as u16 + idx_off;
 
             let (val, val_ty) = match arg {
                 PassMode::Cast { tys, orig, .. } => {
